@@ -31,6 +31,24 @@ _MODELS = [
     dict(name="routine", pkg="./routinex", test="TestRoutine", coq_mod="Routine.Spec", run_check="run_check_routine",
          corpus="routine", project={"C04": _proj_c04, "C05": _proj_c05}, quick_n=1500, thorough_n=150000, nontrivial=nt_len(10), rule=_RULE),
 ]
+# backoff part of C14: Backoff.Construct (/repo/backoff/backoff.go) + the vendor algorithm it configures
+_BACKOFF_COQ = ["Backoff/Model.v", "Backoff/Spec.v", "Backoff/Proofs.v", "Backoff/Props_C14_backoff.v"]
+_BACKOFF_MODEL = dict(
+    name="backoff", pkg="./backoffx", test="TestBackoff", coq_mod="Backoff.Spec", run_check="run_check_backoff",
+    corpus="backoff", quick_n=1500, thorough_n=100000, nontrivial=nt_len(4), tags="",
+    rule="one object per history built by (*backoff.Backoff).Construct() from a random config message inside a synctest bubble (kinds unknown/"
+         "exponential/constant/undeclared; unset fields and nil sub-messages; initial 1..5000 ms, minutes, up to MaxUint32; multipliers "
+         "default/1/1.5/1.8/2/2.5/3.7/random float32 in [1,4]/below 1/subnormal/huge; max_interval below, at and above the initial interval; "
+         "max_elapsed_time unset (65%), small, whole seconds, around and exactly 15 minutes; randomization factor 0 (80%), 0.5, random, 1; "
+         "math/rand re-seeded per history) + random sequences of NextBackOff / Reset / fake-clock advances of 1 ms .. 20 minutes, advances "
+         "steered to the Stop boundary elapsed+next == max_elapsed_time +- 1 ms, retry loops that sleep for the returned interval, and "
+         "bit-exact probes of Go's float64 quotient/product/truncation against the model's rounding; + corpus; distinct = distinct config + "
+         "event sequence; non-trivial = >= 4 events")
+_TRUSTED_BACKOFF = [
+    "backoff: modelled, not verified: IEEE-754 binary64 division/multiplication (round to nearest even) and float->int64 truncation as "
+    "implemented in Backoff/Model.v rne53/trunc (compared bit for bit with Go's on every run), math/rand (the drawn value is an oracle: only "
+    "membership in the jitter interval, with 1 + cur/2^48 ns slack for float rounding, is checked), time.Now/Sub inside the synctest bubble",
+]
 _TRUSTED = SCHED_TRUSTED + [
     "modelled, not verified: time.AfterFunc/Stop (armed/fired/stopped/ran), context.WithCancel (an instance's context is cancelled only by its cancel function: root contexts are never cancelled from outside while installed), the scripted back-off passed through WithBackoff",
 ]
@@ -64,7 +82,7 @@ PROPS = {
                          "newest one, has the current root context and state, and exists only if context, routine and state are set.",
                     note=NOTE + "The harness observes an instance's context only while it is inside the user function.",
                     technique=_TECH)),
-    "C14": dict(pid=14, coq=_COQ + ["Routine/ProofsC14.v", "Routine/ProofsC14b.v", "Routine/Sweep.v", "Routine/Props_C14.v"], props_file="Routine/Props_C14.v", models=_MODELS, trusted=_TRUSTED, assumptions=_ASSUME,
+    "C14": dict(pid=14, coq=_COQ + ["Routine/ProofsC14.v", "Routine/ProofsC14b.v", "Routine/Sweep.v", "Routine/Props_C14.v"] + _BACKOFF_COQ, props_file="Routine/Props_C14.v", models=_MODELS + [_BACKOFF_MODEL], trusted=_TRUSTED + _TRUSTED_BACKOFF, assumptions=_ASSUME,
                 meta=dict(
                     text="Coq theorems about the same model, per step from every state (hence along every event list): only API calls and retry "
                          "callbacks start instances; a recorded success is never re-run by SetContext; a recorded error is not re-run by SetContext "
